@@ -385,4 +385,12 @@ def main(argv=None):
 
 
 if __name__ == '__main__':
-    sys.exit(main())
+    try:
+        rc_ = main()
+    except SystemExit:
+        raise
+    except BaseException:      # an internal error of the machinery is never an alarm: undecided (exit 2)
+        sys.stderr.write(traceback.format_exc())
+        print('UNDECIDED reason=internal-error %s' % ' '.join(traceback.format_exc().split())[-300:])
+        rc_ = 2
+    sys.exit(rc_)
